@@ -105,11 +105,19 @@ def gen(rng, tier):
             ops = [op for i, op in enumerate(ops) if i not in (a, b)
                    and not (op[0] == 'remove' and op[1] in bulk[1])]
             ops += [bulk, ['sync']]
+    # the application has its own (slow) pilot callbacks, registered before
+    # the pilots are added to the task manager, and (un)registers further
+    # ones from a thread of its own while pilots end
+    cb_race = None
+    if rng.random() < 0.25:
+        cb_race = {'dt': rng.choice([0.05, 0.2, 0.5]),
+                   'at': rng.choice([0.0, 0.02, 0.1, 0.3]),
+                   'n': rng.randint(1, 3)}
     return {'n_pilots': n_pilots,
             'tasks'   : [{'pilot': t['pilot'], 'early': t['early']}
                          for t in tasks],
             'ops'     : ops,
-            'delay_max': rng.choice([0.0, 0.0, 0.05])}
+            'delay_max': rng.choice([0.0, 0.0, 0.05]), 'cb_race': cb_race}
 
 
 def run(seed, scenario, trace=None, tier='quick'):
@@ -158,6 +166,16 @@ def run(seed, scenario, trace=None, tier='quick'):
             pilots = pmgr.submit_pilots([W.pilot_descr('/nonexistent/dst')
                                          for _ in range(sc['n_pilots'])])
             st['pilots'] = pilots
+            race = sc.get('cb_race')
+            if race:
+                def slow_cb(*a):
+                    if a and getattr(a[0], 'state', None) in FINAL or \
+                            (a and isinstance(a[0], list) and
+                             any(p.state in FINAL for p in a[0])):
+                        sim.fault('slow_callback')
+                        sim.sleep(race['dt'])
+                for p in pilots:
+                    p.register_callback(slow_cb)
             tmgr.add_pilots(pilots)
             pids = [p.uid for p in pilots]
             pub  = W.state_publisher(side)
@@ -186,6 +204,11 @@ def run(seed, scenario, trace=None, tier='quick'):
             def sync():
                 W.wait_until(sim, lambda: net.idle(queues=False), 30.0)
                 sim.sleep(0.5)
+                if sc.get('cb_race'):
+                    # a delivered pilot update is still being dispatched
+                    # while a slow application callback runs
+                    sim.sleep(3 * sc['cb_race']['dt'])
+                    W.wait_until(sim, lambda: net.idle(queues=False), 30.0)
                 st['window'] = False
                 st['since_sync'] = set()
 
@@ -254,6 +277,20 @@ def run(seed, scenario, trace=None, tier='quick'):
                         sim.fault('pilot_death')
                         pub.put(C.rpc.STATE_PUBSUB, {'cmd': 'update', 'arg': [
                             {'uid': pids[p], 'type': 'pilot', 'state': state}]})
+                        if sc.get('cb_race'):
+                            def app(pilot=pilots[p], race=sc['cb_race']):
+                                sim.sleep(race['at'])
+                                cbs = list()
+                                for k in range(race['n']):
+                                    cb = (lambda *a: None)
+                                    cbs.append(cb)
+                                    pilot.register_callback(cb)
+                                    sim.sleep(0.01)
+                                for cb in cbs[:-1]:
+                                    pilot.unregister_callback(cb)
+                            with C.group('app'):
+                                C.P.Thread(target=app,
+                                           name='app.cbs.%d' % p).start()
             sync()
 
         def final(sim):
@@ -321,6 +358,8 @@ def shrink(sc):
                 out.append(c)
     if sc['delay_max']:
         c = dict(sc); c['delay_max'] = 0.0; out.append(c)
+    if sc.get('cb_race'):
+        c = dict(sc); c['cb_race'] = None; out.append(c)
     return out
 
 
